@@ -105,6 +105,12 @@ TStress ==
         /\ sIds' = CASE e.e = "SRet" -> sIds \cup {<<e.n, e.id>>} [] e.e = "SEnd" -> {} [] OTHER -> sIds
   /\ UNCHANGED <<vars, ids>>
 
-TNext == l <= TraceLen /\ l' = l + 1 /\ (TLStep \/ TLBegin \/ TSkip \/ TAttack \/ TStress)
+\* one loaded value used by many threads at once: every answer equalled the single-threaded reference
+THammer == /\ Ev.e = "SHammer"
+           /\ LET ok == Ev.bad = 0 IN
+                /\ bad' = IF ok THEN bad ELSE bad + 1
+                /\ IF ok THEN TRUE ELSE Reject(l, "SHammer")
+           /\ UNCHANGED <<vars, ids, sInFac, sCalled, sPending, sIds>>
+TNext == l <= TraceLen /\ l' = l + 1 /\ (TLStep \/ TLBegin \/ TSkip \/ TAttack \/ TStress \/ THammer)
 TSpec == TInit /\ [][TNext]_allvars
 =============================================================================
